@@ -35,6 +35,15 @@ pub fn keypair(kind: &str) -> Keypair {
         "ed25519" => Keypair::generate_ed25519(),
         "secp256k1" => Keypair::generate_secp256k1(),
         "ecdsa" => Keypair::generate_ecdsa(),
+        // RSA keys cannot be generated offline: cycle through the three test keys of libp2p-identity
+        "rsa" => {
+            static NEXT: std::sync::atomic::AtomicUsize = std::sync::atomic::AtomicUsize::new(0);
+            let i = NEXT.fetch_add(1, std::sync::atomic::Ordering::SeqCst) % 3;
+            let repo = std::env::var("VERIF_REPO").unwrap_or_else(|_| "/repo".into());
+            let f = format!("{repo}/identity/src/test/rsa-{}.pk8", [2048, 3072, 4096][i]);
+            let mut der = std::fs::read(&f).unwrap_or_else(|e| panic!("{f}: {e}"));
+            Keypair::rsa_from_pkcs8(&mut der).expect("rsa key")
+        }
         k => panic!("key type {k}"),
     }
 }
